@@ -48,18 +48,25 @@ def run_one(m):
 def main():
     args = sys.argv[1:]
     j = 8
+    jsonout = None
     if args and args[0] == "-j":
         j = int(args[1]); args = args[2:]
+    if args and args[0] == "--json":
+        jsonout = args[1]; args = args[2:]
     muts = json.load(open(os.path.join(HERE, "mutants.json")))
     if args:
         muts = [m for m in muts if any(a in m["id"] or a == m["prop"] for a in args)]
     bad = 0
+    results = []
     with cf.ThreadPoolExecutor(max_workers=j) as ex:
         for m, status, info in ex.map(run_one, muts):
             print("%-12s %-5s %-44s %s" % (status, m["prop"], m["id"], m.get("rule", "")))
+            results.append({"id": m["id"], "prop": m["prop"], "kind": m.get("kind", "break"), "rule": m.get("rule", ""), "file": m["file"], "status": status})
             if status != "ok":
                 bad += 1
                 print("     " + info.replace("\n", "\n     "))
+    if jsonout:
+        json.dump(results, open(jsonout, "w"), indent=1)
     print("%d variants, %d not as expected" % (len(muts), bad))
     sys.exit(1 if bad else 0)
 
